@@ -301,4 +301,107 @@ Proof.
     exists st'. split; [cbn [fold_left rbind]; rewrite E1; exact E'|]. now rewrite <- app_assoc in H'.
 Qed.
 
+(* ---------- from the final scanner state to the contraction ---------- *)
+Lemma legs_width_mats legs : legs_width R legs = widths R (map leg_mat legs).
+Proof. unfold legs_width, widths. induction legs as [|[w o] legs IH]; [reflexivity|]. cbn [map fold_right fst BackendsContract.leg_mat]. now rewrite IH. Qed.
+
+Lemma legs_sem n l legs : wf_layer n l -> weq (kronW (map leg_mat legs)) (kronW (map ofE l)) ->
+  forall psi b, length b = n -> contractI R radd rmul legs psi b = sem (layer_items 0 l) psi b.
+Proof.
+  intros Hl [W1 W2] psi b Lb.
+  assert (Wn : legs_width R legs = n).
+  { rewrite legs_width_mats, <- fst_kronW with (rI := rI) (rmul := rmul), W1. now apply kron_layer_width. }
+  rewrite (contractI_spec R rO rI radd rmul rsub ropp Rth) by congruence. rewrite Wn.
+  assert (Fn : fst (kronW (map leg_mat legs)) = n) by (rewrite W1; now apply kron_layer_width).
+  rewrite Fn in W2.
+  rewrite (mv_meq R radd rmul n _ (snd (kronW (map ofE l))) psi psi b); auto.
+  now apply (kron_is_slots R rO rI radd rmul rsub ropp Rth).
+Qed.
+
+Lemma kronW_filter l : weq (kronW (map ofE (filter (fun e => negb (isOne R e)) l))) (kronW (map ofE l)).
+Proof.
+  induction l as [|e l IH]; [apply weq_refl|]. cbn [filter]. destruct e; cbn [isOne negb map].
+  - change (weq (pkron (ofE (En2 A)) (kronW (map ofE (filter (fun e => negb (isOne R e)) l)))) (pkron (ofE (En2 A)) (kronW (map ofE l)))).
+    apply pkron_weq; [apply weq_refl | exact IH].
+  - change (weq (pkron (ofE (En4 G)) (kronW (map ofE (filter (fun e => negb (isOne R e)) l)))) (pkron (ofE (En4 G)) (kronW (map ofE l)))).
+    apply pkron_weq; [apply weq_refl | exact IH].
+  - eapply weq_trans; [exact IH|]. apply weq_sym. apply (pkron_unit_l R rO rI radd rmul rsub ropp Rth).
+Qed.
+
+Lemma final_ok ms st : Inv ms st ->
+  exists stF, (if lastid R st then Ok st else match proto R st with [] => Err AssertionError | _ => split 14 st end) = Ok stF /\
+  exists legs, zip_legs (col R stF) (shp R stF) (noc R stF) = Ok legs /\
+               weq (kronW (map leg_mat legs)) (kronW (map ofE ms)) /\ length (col R stF) <= length ms.
+Proof.
+  intros (col' & shp' & w & legs' & Hc & Hs & Hz & Hlen & Hw). destruct (lastid R st) eqn:EL.
+  - exists st. split; [reflexivity|]. exists (legs' ++ [(w, None)]). split; [|split].
+    + rewrite Hc, Hs, <- (app_nil_r (noc R st)). apply zip_legs_app; [exact Hz | reflexivity].
+    + rewrite map_app. exact Hw.
+    + rewrite Hc, app_length. cbn [length]. lia.
+  - destruct Hw as (Hp & Hwd & Hw).
+    destruct (split_spec 14 st shp' ltac:(lia) Hp) as (cs & Hcs & Lcs & Wcs & Es); [now rewrite Hwd|].
+    assert (EM : match proto R st with [] => Err AssertionError | _ :: _ => split 14 st end = split 14 st)
+      by (clear -Hp; destruct (proto R st); [congruence | reflexivity]).
+    eexists. split; [rewrite EM; exact Es|].
+    cbn [col shp noc]. exists (legs' ++ legs_of cs). split; [|split].
+    + rewrite Hc. replace ((col' ++ [false]) ++ map (fun _ => false) (tl cs)) with (col' ++ map (fun _ => false) cs)
+        by (destruct cs; [congruence|]; cbn [tl map]; now rewrite <- app_assoc).
+      apply zip_legs_app; [exact Hz | apply zip_false].
+    + rewrite map_app. eapply weq_trans; [|exact Hw]. apply kronW_app_weq; [apply weq_refl|].
+      eapply weq_trans; [apply legs_of_mats'|]. exact Wcs.
+    + rewrite Hc, !app_length, map_length. cbn [length]. destruct cs; [congruence|]. cbn [tl length] in *. lia.
+Qed.
+
+Notation ones_high := (ones_high R rI rmul is_id).
+Lemma ones_high_ok n l : 1 <= n -> wf_layer n l -> length (filter (fun e => negb (isOne R e)) l) <= 26 ->
+  exists p, ones_high n l = Ok p /\ plan_ok n l p.
+Proof.
+  intros Hn Hl H26. unfold Backends.ones_high.
+  pose proof (kronW_filter l) as WF. set (ms := filter (fun e => negb (isOne R e)) l) in *.
+  destruct (Nat.ltb_spec 26 (length ms)) as [C|_]; [lia|].
+  destruct ms as [|m0 rest] eqn:Ems.
+  { exfalso. destruct WF as [W1 _]. rewrite !fst_kronW in W1. rewrite (widths_wf R rI n l Hl) in W1. cbn in W1. lia. }
+  set (st0 := {| noc := []; shp := [fst (ofE m0)]; col := [is_id m0]; proto := if is_id m0 then [] else [ofE m0]; lastid := is_id m0 |}).
+  assert (I0 : Inv [m0] st0).
+  { exists [], [], (fst (ofE m0)), []. subst st0. cbn [col shp noc proto lastid]. split; [reflexivity|]. split; [reflexivity|].
+    split; [reflexivity|]. destruct (is_id m0) eqn:E0.
+    - split; [cbn; lia|]. destruct (is_id_sound m0 E0) as (A & -> & HA). cbn [map app].
+      apply kronW_single, weq_sym. apply ofE_ident. exact HA.
+    - split; [cbn; lia|]. split; [discriminate|]. split; [unfold widths; cbn [fold_right]; lia | apply weq_refl]. }
+  destruct (fold_inv rest [m0] st0 I0) as (st & Ef & If). cbn [app] in If.
+  rewrite Ef. cbn [rbind].
+  destruct (final_ok (m0 :: rest) st If) as (stF & EF & legs & Hz & Wl & Lc).
+  rewrite EF. cbn [rbind].
+  assert (Wl' : weq (kronW (map leg_mat legs)) (kronW (map ofE l))) by (eapply weq_trans; [exact Wl | exact WF]).
+  assert (Wn : legs_width R legs = n).
+  { destruct Wl' as [W1 _]. rewrite legs_width_mats, <- fst_kronW with (rI := rI) (rmul := rmul), W1. now apply kron_layer_width. }
+  destruct (forallb (fun b => b) (col R stF)) eqn:EA.
+  - eexists. split; [reflexivity|]. intros psi b Lb. cbn [Backends.exec1].
+    rewrite <- (legs_sem n l legs Hl Wl' psi b Lb). symmetry. apply contractI_allNone; [|congruence].
+    exact (zip_all_true _ _ _ _ Hz EA).
+  - destruct (Nat.ltb_spec 26 (length (col R stF))) as [C|_]; [cbn [length] in *; lia|].
+    rewrite (zip_legs_width _ _ _ _ Hz), Wn, Nat.eqb_refl, Hz. cbn [rbind]. eexists. split; [reflexivity|].
+    intros psi b Lb. cbn [Backends.exec1]. rewrite memoT_get by assumption. exact (legs_sem n l legs Hl Wl' psi b Lb).
+Qed.
+
+Notation ones_plan := (ones_plan R rI rmul is_id).
+Notation ones := (ones R rI radd rmul is_id).
+(* ones_spec: BackendForOnes computes the layered product for every sound identity test, provided every layer has at most
+   26 matrices (the code's assertion at backend.py:500) *)
+Theorem ones_spec n ls psi :
+  1 <= n -> ls <> [] -> Forall (wf_layer n) ls ->
+  Forall (fun l => length (filter (fun e => negb (isOne R e)) l) <= 26) ls ->
+  exists out, ones n ls psi = Ok out /\ state_eq n out (layers_sem ls psi).
+Proof.
+  intros Hn Hne Hwf H26. unfold Backends.ones.
+  assert (P : exists ps, ones_plan n ls = Ok ps /\ Forall2 (plan_ok n) ls ps).
+  { unfold Backends.ones_plan. destruct ls as [|l0 rest] eqn:Els; [congruence|]. rewrite <- Els in *. clear Els l0 rest.
+    rewrite Forall_forall in Hwf, H26.
+    destruct (n <=? 6).
+    - apply mapM_ok. intros l Hin. apply ones_low_ok; auto.
+    - apply mapM_ok. intros l Hin. apply ones_high_ok; auto. }
+  destruct P as (ps & Ep & HF). rewrite Ep. cbn [rbind]. eexists. split; [reflexivity|].
+  now apply (exec_ok R radd rmul).
+Qed.
+
 End Ones.
